@@ -376,7 +376,7 @@ fn f64_value(i: usize) -> f64 {
 }
 
 fn run(tier: Tier) -> Sink {
-    let nmax = tier.pick(300, 3000);
+    let nmax = tier.pick(500, 3000);
     let zt = ZTab { confs: vcheck::confs(tier).into_iter().map(|(k, l)| (k, l, z_of(k, l))).collect() };
     let ns: Vec<usize> = (0..=nmax).rev().collect();
     let mut s = par_judge(&ns, |&n, s| {
@@ -429,7 +429,7 @@ fn main() {
     s.sample(json!({"check":"ranks","n":15,"q":0.5,"kind":"Two","level":0.95,"oracle":"k=round(7.5)=8 -> Wilson roots -> ranks min(floor(p*15),14) = (4, 11)"}));
     s.sample(json!({"check":"ranks","n":10,"q":"(4+1/2)/10 (q*n at a half-integer: exact tie decided on the rational value of the double)","kind":"Upper","level":0.9}));
     s.sample(json!({"check":"elements","type":"f64","sorted":"[-inf,-2.5,-0.0,+0.0,5e-324,1.0]","order":[5,0,3,2,4,1],"entry_points":["ci","ci_sorted_unchecked","ci_max_size<CAP=n,n+1,1024>","ci_max_size<CAP=n-1> must panic"]}));
-    rep.rule = format!("ranks: every n in 0..={} x q grid (j/64, (m+1/2)/n, m/n, and invalid/boundary quantiles) x {} confidences through ci_indices and Stats::ci, plus n in {{1e5, 1e6+3, 2^40}}; elements: all permutations of 5 multisets (distinct, ties, all-equal) for n=4..{} and structured orders (sorted, reversed, rotations, interleaves, multiplicative scrambles) for n in {{15,64,257,1024,1025}}, element types i32,u8,f64(+-0,+-inf,subnormal),char,&str, 6 confidences x 3 quantiles, entry points ci / ci_sorted_unchecked / ci_max_size with CAP in {{n,n+1,1024}} and CAP=n-1 (documented panic); distinct by (outcome variant, kind, type)", tier.pick(300, 3000), vcheck::confs(tier).len(), tier.pick("6 (+2 multisets at 7)", "8"));
+    rep.rule = format!("ranks: every n in 0..={} x q grid (j/64, (m+1/2)/n, m/n, quantiles a definite distance from every rounding tie, and invalid/boundary quantiles) x {} confidences through ci_indices and Stats::ci, plus n in {{1e5, 1e6+3, 2^40}}; elements: all permutations of 5 multisets (distinct, ties, all-equal) for n=4..{} and structured orders (sorted, reversed, rotations, interleaves, multiplicative scrambles) for n in {{15,64,257,1024,1025}}, samples of size 0..3, element types i32,u8,f64(+-0,+-inf,subnormal),char,&str, 6 confidences x 7 quantiles (3 valid, 4 inadmissible), entry points ci / ci_sorted_unchecked / ci_max_size with CAP in {{n,n+1,1024}} and CAP=n-1 (documented panic); distinct by (outcome variant, kind, type)", tier.pick(500, 3000), vcheck::confs(tier).len(), tier.pick("6 (+2 multisets at 7)", "8"));
     rep.assume("ambiguity band: where the rational q*n is within 2^-50 (relative) of a half-integer, or p*n within 1e-9 of an integer, both neighbouring ranks are accepted");
     rep.assume("which rejection variant is returned for an inadmissible input is judged by C11; C03 accepts any of TooFewSamples/InvalidQuantile/TooFewSuccesses/TooFewFailures");
     rep.require(s.distinct() >= 15, "fewer than 15 distinct outcome classes: vacuous");
